@@ -12,6 +12,7 @@ from . import r_ptg as G
 from . import r_fmt as Q
 from . import r_c11 as D
 from . import r_witness as N
+from . import r_seed2 as U
 
 
 def part(fn, **kw):
@@ -78,11 +79,11 @@ def registry():
     R["C14"] = _p(
         "Decides: operator tokens (R-TAB-OP) and error literals (R-TAB-ERR) of both token decoders follow MS-XLS/MS-XLSB; operand tokens push one entry and consume the payload width of the spec, reference tokens render the column masked to 14 bits with `$` exactly on the absolute components from the right payload bytes (R-TAB-PTG); formula cell positions through the sibling rules (R-SIB-XLSX, R-SIB-XLSB); defined-name tables get one entry per record so name tokens resolve (R-SST).",
         "column lettering arithmetic (push_column), argument ordering of n-ary functions",
-        [T.r_tab_op, T.r_tab_err, G.r_tab_ptg, S.r_sib_xlsx, S.r_sib_xlsb, part(W.r_sst, only=["Lbl", "BrtName"])])
+        [T.r_tab_op, T.r_tab_err, G.r_tab_ptg, S.r_sib_xlsx, S.r_sib_xlsb, part(W.r_sst, only=["Lbl", "BrtName"]), U.r_xti, U.r_digits])
     R["C16"] = _p(
         "Decides: metadata vectors are filled by order-preserving operations only (R-ORDER); visibility and sheet-kind tables follow the specs (R-TAB-VIS, R-TAB-TYP); the date-system element is matched prefix-insensitively (R-NS) and the flag reaches every number conversion (R-NUMCTOR).",
         "exact name decoding",
-        [W.r_order, T.r_tab_vis, T.r_tab_typ, X.r_ns, W.r_numctor, M.r_tab_1904, M.r_unesc])
+        [W.r_order, T.r_tab_vis, T.r_tab_typ, X.r_ns, W.r_numctor, M.r_tab_1904, M.r_unesc, U.r_xti])
     R["C17"] = _p(
         "Decides: guarded header/totals adjustments use their own field and regions/tables are attributed to the scanned sheet (R-TBL); cache fields are written only by their loaders (R-FRAME); Range::range precondition before table windowing (R-RANGEPRE).",
         "coordinate arithmetic",
